@@ -13,4 +13,21 @@ CLAIMED = {
              '(cos^2+sin^2==1, sqrt(x)^2==x). Class-level composition (which kernel is applied to which field) is proved only for the '
              'classes listed in props/C02.v, the rest is validated by the exploration.',
         technique=T_Q),
+    'C11': dict(
+        text='For segment/ray x segment/ray (all four operand typings), segment/ray x plane, plane x plane and plane x sphere the '
+             'translated routines are proved sound (result on both operands, parameters in range), complete (every transversal common '
+             'point with admissible parameters is returned; d<>0) and symmetric under operand swap, for all inputs; the isclose guard of '
+             'the segment variant is proved never to reject in exact arithmetic. Arc, polygon/polyline, face, polyface and arc/plane '
+             'routines are searched against exact-rational configuration analysis.',
+        note='Trusted: Coq kernel, py2coq, harness. Ideal (exact rational) semantics of floats; sqrt pointwise hypothesis in the sphere '
+             'theorem. Composite routines (Polygon2D/Face3D/Polyface3D/Arc) are validated, not proved.',
+        technique=T_Q),
+    'C12': dict(
+        text='closest_point on segment / ray / line (2D and 3D) and on a plane: proved for every object and query that the result lies '
+             'on the object (admissible parameter) and that no admissible point is closer (squared distance), plus distance zero for '
+             'queries on the object. Arc, polygon, segment-segment, plane-line and pole_of_inaccessibility are searched against exact '
+             'clamped projections, 200-400 samples and a 400-point interior search.',
+        note='Trusted: Coq kernel, py2coq, harness. Squared-distance form (sqrt monotone). Lipschitz continuity and the polylabel '
+             'bound are validated only.',
+        technique=T_Q),
 }
